@@ -398,11 +398,39 @@ def self_rooted(node, self_name) -> bool:
 
 
 def method_specs(cls, pyname):
-    return [sp for sp in cls.get('methods', []) if sp['py'] == pyname]
+    return [sp for sp in cls.get('methods', []) if sp['py'] == pyname] + \
+        [sp for sp in cls.get('_helpers', {}).values() if isinstance(sp, dict) and sp['py'] == pyname]
+
+
+def spec_type(t) -> str:
+    """spec text of a type (inverse of `parse_type`)"""
+    k = t[0]
+    if k in ('Int', 'Bool', 'Str'):
+        return k
+    if k == 'Unit':
+        return 'None'
+    if k == 'Var':
+        return t[1]
+    if k in ('List', 'Option', 'Set'):
+        return '%s (%s)' % (k, spec_type(t[1]))
+    if k == 'Prod':
+        return ' × '.join('(%s)' % spec_type(x) for x in t[1])
+    if k == 'Dict':
+        return 'Dict (%s) (%s)' % (spec_type(t[1]), spec_type(t[2]))
+    raise ValueError(t)
 
 
 def method_mutates(cls, fdef, tree, seen=()) -> bool:
     """syntactic: does the method (or a translated method it calls on `self`) change the object state?"""
+    if cls.get('clsprep') and tree is not None:
+        # round 3b: judged on the method as the class pre-pass leaves it (a store through a local alias of an
+        # attribute is a store into the attribute)
+        import py2lean_clsprep
+        cache = cls.setdefault('_prep_cache', {})
+        key = (id(tree), fdef.name, fdef.lineno)
+        if key not in cache:
+            cache[key] = py2lean_clsprep.run(fdef, tree, {'cls': cls})
+        fdef = cache[key]
     self_name = fdef.args.args[0].arg
     for n in ast.walk(fdef):
         targets = []
@@ -429,12 +457,23 @@ def method_mutates(cls, fdef, tree, seen=()) -> bool:
                     and n.args and (self_rooted(n.args[0], self_name)
                                     or (isinstance(n.args[0], ast.Name) and n.args[0].id == self_name)):
                 return True                                      # dict.__setitem__(self, ...) and the like
-            if isinstance(n.func.value, ast.Name) and n.func.value.id == self_name:
-                for sp in method_specs(cls, n.func.attr):
+            on_peer = cls.get('helpers') and cls.get('peer') and isinstance(n.func.value, ast.Attribute) \
+                and isinstance(n.func.value.value, ast.Name) and n.func.value.value.id == self_name \
+                and n.func.value.attr == cls['peer']['attr']
+            if (isinstance(n.func.value, ast.Name) and n.func.value.id == self_name) or on_peer:
+                sps = [sp for sp in method_specs(cls, n.func.attr) if not sp.get('helper')]
+                for sp in sps:
                     if sp['lean_name'] in seen:
                         continue
                     callee = _find_function(tree, sp['qualname'])
                     if method_mutates(cls, callee, tree, seen + (sp['lean_name'],)):
+                        return True
+                if not sps and cls.get('helpers') and tree is not None:
+                    # round 3b: a method of the class that the spec does not list (translated on demand)
+                    import py2lean_clsprep
+                    h = py2lean_clsprep.plain_method(tree, cls['name'], n.func.attr)
+                    tag = 'helper:' + n.func.attr
+                    if h is not None and tag not in seen and method_mutates(cls, h, tree, seen + (tag,)):
                         return True
     return False
 
@@ -454,6 +493,9 @@ class FnTranslator:
         fdef = py2lean_prepass.run(fdef, getattr(fdef, '_module_tree', None), spec, self.prepass)
         if hnotes:
             self.prepass['prepass'] = sorted(set(self.prepass.get('prepass', [])) | hnotes)
+        if (spec.get('cls') or {}).get('clsprep'):          # round 3b: class-level desugaring (aliases, loops)
+            import py2lean_clsprep
+            fdef = py2lean_clsprep.run(fdef, getattr(fdef, '_module_tree', None) or tree, spec, self.prepass)
         self.f = fdef
         self.spec = spec
         self.module_defs = module_defs          # name -> ast.FunctionDef of module-level functions
@@ -855,6 +897,12 @@ class FnTranslator:
             return None
         path = '.'.join(reversed(parts))
         if len(parts) == 1:
+            actual = self.cls.get('_actual')
+            if actual:                           # round 3b: the attribute that plays a declared role
+                back = {v: k for k, v in actual.items()}
+                if path not in back:
+                    return None
+                path = back[path]
             return path if path in self.cls_state and path not in self.cls.get('virtual', ()) else None
         return self.cls.get('paths', {}).get(path)
 
@@ -1530,6 +1578,17 @@ class FnTranslator:
             if isinstance(value, (ast.Tuple, ast.List)) and len(value.elts) == len(tgt.elts):
                 for t1, v1 in zip(tgt.elts, value.elts):
                     self._assign(t1, v1, upd, ex, node)      # all right-hand sides read the OLD state
+            elif isinstance(value, ast.Name) and self.cls is not None and self.cls.get('clsprep') \
+                    and (self.vars.get(value.id) or ('?',))[0] == 'Prod' \
+                    and len(self.vars[value.id][1]) == len(tgt.elts) \
+                    and all(isinstance(t1, ast.Name) and t1.id != value.id for t1 in tgt.elts):
+                # round 3b: unpacking a variable of a declared product type (`count, delta = entry`)
+                n = len(tgt.elts)
+                base = ex.expr(value)[0]
+                for i, t1 in enumerate(tgt.elts):
+                    if self.vars.get(t1.id) != self.vars[value.id][1][i] or any(x == t1.id for x, _ in upd):
+                        raise Unsupported(node, 'unpacking target')
+                    upd.append((t1.id, prod_proj(base, i, n)))
             else:
                 raise Unsupported(node, 'tuple assignment from a non-display')
         else:
@@ -1544,6 +1603,13 @@ class FnTranslator:
         if isinstance(node, ast.Call) and isinstance(node.func, ast.Attribute) \
                 and isinstance(node.func.value, ast.Name) and node.func.value.id == self.self_name:
             return self.callee(node.func.attr, node.args, node.keywords, node, nn)
+        if isinstance(node, ast.Call) and isinstance(node.func, ast.Attribute) and self.cls.get('helpers') \
+                and self.dict_view(node.func.value) is not None and self.dict_view(node.func.value)[1]:
+            # round 3b: `self.<peer>.m(args)`: the method on the record seen from the other side
+            c = self.callee(node.func.attr, node.args, node.keywords, node, nn)
+            if c is not None:
+                c['peer'] = True
+            return c
         if isinstance(node, ast.Subscript) and isinstance(node.value, ast.Name) and node.value.id == self.self_name \
                 and isinstance(node.ctx, ast.Load) and not isinstance(node.slice, ast.Slice):
             return self.callee('__getitem__', [node.slice], [], node, nn)
@@ -1552,6 +1618,13 @@ class FnTranslator:
     def callee(self, pyname, args, keywords, node, nn=frozenset()):
         """pick the translated variant of method `pyname` whose declared parameter types fit the arguments"""
         cands = method_specs(self.cls, pyname)
+        if not cands and self.cls.get('helpers') and self.tree is not None:
+            h = self._helper_spec(pyname, args, keywords, node, nn)
+            cands = [h] if h is not None else []
+        elif cands and all(sp.get('helper') for sp in cands):
+            h = self._helper_spec(pyname, args, keywords, node, nn)       # another argument-type variant
+            if h is not None and h not in cands:
+                cands = cands + [h]
         if not cands:
             return None
         why = ''
@@ -1605,9 +1678,84 @@ class FnTranslator:
                     'result': ('List', res) if sp['kind'] == 'generator' else res}
         raise Unsupported(node, 'no translated variant of %s fits the arguments (%s)' % (pyname, why))
 
+    def _helper_spec(self, pyname, args, keywords, node, nn):
+        """round 3b: a method of the class that the spec does not list, called through `self.`: synthesize its spec
+        (parameter types = the types of the arguments at this call, result type inferred from its `return` /
+        `yield` expressions), translate it now and queue its text in front of the caller's.  None when the class
+        does not define such a plain method."""
+        import py2lean_clsprep
+        fdef = py2lean_clsprep.plain_method(self.tree, self.cls['name'], pyname)
+        if fdef is None:
+            return None
+        a = fdef.args
+        names = [x.arg for x in a.args][1:]
+        if a.vararg or a.kwarg or a.kwonlyargs or a.posonlyargs or keywords or len(args) > len(names):
+            raise Unsupported(node, 'helper method %s: only plain positional parameters' % pyname)
+        defaults = dict(zip(names[len(names) - len(a.defaults):], a.defaults)) if a.defaults else {}
+        ptypes = {}
+        for i, n in enumerate(names):
+            arg = args[i] if i < len(args) else defaults.get(n)
+            if arg is None:
+                raise Unsupported(node, 'helper method %s: argument %s missing' % (pyname, n))
+            t = ExprTr(self, infer_only=True, nn=nn).expr(arg)[1]
+            if not known(t):
+                raise _Unknown()
+            ptypes[n] = spec_type(t)
+        helpers = self.cls.setdefault('_helpers', {})
+        key = (pyname, tuple(ptypes.values()))
+        if key in helpers:
+            if not isinstance(helpers[key], dict):
+                raise Unsupported(node, 'helper method %s: %s' % (pyname, helpers[key]))
+            return helpers[key]
+        helpers[key] = 'recursive helper method'
+        try:
+            base = self.cls['lean_name'] + '.h_' + (pyname.strip('_') or 'm')
+            lean_name, i = base, 1
+            taken = {sp['lean_name'] for sp in self.cls.get('methods', [])} | \
+                {sp['lean_name'] for sp in helpers.values() if isinstance(sp, dict)}
+            while lean_name in taken:
+                i += 1
+                lean_name = '%s%d' % (base, i)
+            is_gen = any(isinstance(n, (ast.Yield, ast.YieldFrom)) for n in ast.walk(fdef))
+            sp = {'module': self.spec.get('module'), 'cls': self.cls, 'method': True, 'py': pyname,
+                  'qualname': '%s.%s' % (self.cls['name'], pyname), 'lean_name': lean_name, 'params': ptypes,
+                  'kind': 'generator' if is_gen else 'function', 'raises': True, 'result': 'None',
+                  'tie_theorem': None, 'helper': True}
+            fdef._module_tree = self.tree
+            # result type: from the `return <value>` / `yield <value>` expressions, typed in the helper's own scope
+            vals = [n.value for n in ast.walk(fdef) if isinstance(n, (ast.Return, ast.Yield)) and n.value is not None
+                    and not (isinstance(n.value, ast.Constant) and n.value.value is None)]
+            if vals:
+                probe = FnTranslator(fdef, dict(sp, kind='function'), self.module_defs, self.tree, self.emitted)
+                opt = frozenset(v for v, t in probe.vars.items() if t is not None and t[0] == 'Option')
+                rt = None
+                pvals = [n.value for n in ast.walk(probe.f) if isinstance(n, (ast.Return, ast.Yield))
+                         and n.value is not None and not (isinstance(n.value, ast.Constant) and n.value.value is None)]
+                for v in pvals:
+                    rt = unify(rt, probe._type_of(v, opt), v)
+                if not known(rt):
+                    raise Unsupported(fdef, 'helper method %s: result type not inferred' % pyname)
+                sp['result'] = spec_type(rt)
+            tr = FnTranslator(fdef, sp, self.module_defs, self.tree, self.emitted)
+            import re
+            # helper definitions unfold under `simp`: the tie proofs cannot name them
+            text = re.sub(r'(?m)^def ', '@[simp] def ', tr.emit())
+            self.cls.setdefault('_helper_texts', []).append((lean_name, text))
+            if self.emitted is not None:
+                self.emitted.add(lean_name)
+            helpers[key] = sp
+            return sp
+        except (Unsupported, _Unknown) as e:
+            if isinstance(e, _Unknown):
+                del helpers[key]
+                raise
+            helpers[key] = str(e)
+            raise Unsupported(node, 'helper method %s: %s' % (pyname, e))
+
     def call_app(self, callee, ex, node, ctx=None, peer=False):
         """Lean application of a translated method to `s.self` (the peer object: to the swapped state) and the
         (translated) arguments"""
+        peer = peer or bool(callee.get('peer'))
         if callee['raises'] and not self.raises:
             raise Unsupported(node, 'call of a raising method outside the raising mode')
         if callee['lean_name'] == self.name and not (self.fuel and callee['fuel']):
@@ -1633,6 +1781,7 @@ class FnTranslator:
 
     def _call_stmt(self, callee, node, tgt, rest, k, ctx, ex, peer=False):
         """statement-level call of a state-changing method: `self.m(..)`, `x = self.m(..)`, `return self.m(..)`"""
+        peer = peer or bool(callee.get('peer'))
         app = self.call_app(callee, ex, node, ctx, peer)
         r = self.fresh('r')
 
@@ -2244,6 +2393,11 @@ class ExprTr:
             kx, _ = self.expr(a[0], bt[1])
             dx, _ = self.expr(a[1], bt[2])
             return '(PyRt.Dict.getD %s %s %s)' % (base, kx, dx), bt[2]
+        if m == 'get' and len(a) == 1 and self.fn.cls is not None and self.fn.cls.get('clsprep') \
+                and bt[2] is not None and bt[2][0] != 'Option':
+            # round 3b: `d.get(k)`: the value or None (values of the declared type are never None)
+            kx, _ = self.expr(a[0], bt[1])
+            return '(PyRt.Dict.find %s %s)' % (base, kx), ('Option', bt[2])
         if m == '__len__' and not a:
             return '(PyRt.Dict.len %s)' % base, INT
         if m == 'pop' and len(a) == 1 and self.fn.heap and self.infer_only:
@@ -2591,6 +2745,11 @@ def translate_module(module_name: str, specs: list, repo: str):
             # the import cache and the working tree differ: read the file (the check runs in a fresh process)
             fh.seek(0)
             src = fh.read()
+    for spec in specs:                           # round 3b: role -> attribute map, by evaluating the real class
+        c = spec.get('cls')
+        if c is not None and c.get('role_probe') and hasattr(mod, c['name']):
+            import py2lean_clsprep
+            c['_actual'] = py2lean_clsprep.resolve_roles(c, getattr(mod, c['name']))
     return translate_source(src, specs, module_name, os.path.relpath(path, os.path.abspath(repo)))
 
 
@@ -2622,6 +2781,9 @@ def translate_source(src: str, specs: list, module_name: str, rel: str):
     short = module_name.split('.')[-1]
     parts, infos, head = [], [], []
     emitted, classes = set(), []
+    for spec in specs:                           # round 3b: helper methods translated on demand, per run
+        if spec.get('cls') is not None and spec['cls'].get('helpers'):
+            spec['cls']['_helpers'], spec['cls']['_helper_texts'] = {}, []
     for spec in specs:
         info = {'function': '%s.%s' % (module_name, spec['qualname']), 'source_file': rel, 'lines': None,
                 'lean_def': 'Src.%s.%s' % (short, spec['lean_name']),
@@ -2636,6 +2798,10 @@ def translate_source(src: str, specs: list, module_name: str, rel: str):
             text = tr.emit()
             emitted.add(spec['lean_name'])
             cls = spec.get('cls')
+            if cls is not None and cls.get('_helper_texts'):
+                info['helpers'] = [n for n, _ in cls['_helper_texts']]
+                text = '\n'.join(t for _, t in cls['_helper_texts']) + '\n' + text
+                cls['_helper_texts'] = []
             if cls is not None and cls.get('state_lean', cls['lean_name']) not in classes:
                 classes.append(cls.get('state_lean', cls['lean_name']))
                 text = class_state_text(cls) + '\n' + text
